@@ -717,7 +717,9 @@ fn gen_error_item(
             p.sig.push("err:tag-while-listening".into());
         }
         4 => {
-            b.head("", "-", "-TXTPP#temp bad.txtpp".to_string(), false, false);
+            // both txtpp name shapes are refused as temp targets (`x.txtpp`, `x.txtpp.ext`)
+            let t = *rng.pick(&["bad.txtpp", "bad.txtpp.md", "bad.min.txtpp.js"]);
+            b.head("", "-", format!("-TXTPP#temp {t}"), false, false);
             b.cont("-body".to_string());
             p.sig.push("err:temp-txtpp".into());
         }
